@@ -29,6 +29,7 @@ import SharkVerif.Lemmas.View
 import SharkVerif.Lemmas.Subset
 import SharkVerif.Lemmas.Blocks
 import SharkVerif.Lemmas.Dealing
+import SharkVerif.Lemmas.DealingSorted
 namespace SharkVerif.C12
 open SharkVerif.CheckedNat SharkVerif.Gen.BatchArith SharkVerif.BatchArith SharkVerif.Dataset SharkVerif.CV
 
@@ -198,6 +199,46 @@ theorem dealing_fills_folds_exactly (n k f : Nat) (hk : 0 < k) (hf : f < k) :
     have hmod : n - n / k * k = n % k := by
       have := Nat.div_add_mod n k; rw [Nat.mul_comm] at this; omega
     simp [sameSizes, cdiv, csub, Nat.ne_of_gt hk, hmul, hmod]
+
+/-- adjacent elements in order ⇒ the list is sorted -/
+theorem pairwise_of_adjacent (ls : List Nat)
+    (h : ∀ j, j + 1 < ls.length → ls[j]?.getD 0 ≤ ls[j + 1]?.getD 0) : ls.Pairwise (· ≤ ·) := by
+  rw [List.pairwise_iff_getElem]
+  intro i j hi hj hij
+  have key : ∀ d, ∀ i, (hid : i + d < ls.length) → ls[i]'(by omega) ≤ ls[i + d]'hid := by
+    intro d
+    induction d with
+    | zero => intro i _; exact Nat.le_refl _
+    | succ d ih =>
+      intro i hid
+      have h1 := ih i (by omega)
+      have h2 := h (i + d) (by omega)
+      rw [List.getElem?_eq_getElem (by omega), List.getElem?_eq_getElem (by omega)] at h2
+      simp only [Option.getD_some] at h2
+      have e : i + (d + 1) = i + d + 1 := by omega
+      simp only [e]
+      exact Nat.le_trans h1 h2
+  have := key (j - i) i (by omega)
+  have e : i + (j - i) = j := by omega
+  simp only [e] at this
+  exact this
+
+/-- **class balance of createCVSameSizeBalanced** for every admissible dealing order: if `validSeq labels seq`
+(what the model checks on the observed order: every position once, class by class) then, with dealing position j
+going to fold j mod k, the members of any class c are spread over any two folds p, q with counts that differ by
+at most one (`idxs c ls 0` = the dealing positions holding class c) -/
+theorem balanced_class_balance (labels seq : List Nat) (hv : validSeq labels seq = true) (k : Nat) (hk : 0 < k)
+    (c p q : Nat) (hp : p < k) (hq : q < k) :
+    let ls := seq.map fun i => labels[i]?.getD 0
+    ((idxs c ls 0).filter (fun j => j % k = p)).length ≤ ((idxs c ls 0).filter (fun j => j % k = q)).length + 1 := by
+  intro ls
+  simp only [validSeq, Bool.and_eq_true, List.all_eq_true, List.mem_range, decide_eq_true_eq] at hv
+  have hs : ls.Pairwise (· ≤ ·) := by
+    apply pairwise_of_adjacent
+    intro j hj
+    have hlen : ls.length = (List.map (fun i => labels[i]?.getD 0) seq).length := rfl
+    exact hv.2 j (by omega)
+  exact dealing_balance_sorted ls hs k hk c p q hp hq
 
 /-! ## D. the reorganised dataset -/
 
